@@ -174,3 +174,179 @@ def c05_bounded_seektolast(component, script, impl, problems):
         return False
     lasts = [i for s, i in zip(script, impl) if s.strip() == 'last']
     return sum(1 for i in lasts if i == '- f - - f') >= len(problems)
+
+
+# C14 / C15 (components repl, replfault). Every predicate requires the scenario class (from the script) AND the symptom
+# (from the verdict fields the harness measured) AND that ALL problems of the case are of that one kind.
+# ---------------------------------------------------------------------------------------------------------------------
+
+def _repl_kv(line):
+    d = {}
+    for w in (line or '').split():
+        if '=' in w:
+            k, v = w.split('=', 1)
+            try:
+                d[k] = int(v)
+            except ValueError:
+                d[k] = v
+    return d
+
+
+def _repl_awaits(script, impl):
+    """[(script index, replica, verdict word, fields)] for the await lines"""
+    out = []
+    for i, (s, o) in enumerate(zip(script, impl)):
+        if s.startswith('await '):
+            o = o or ''
+            out.append((i, s.split()[1], (o.split() or [''])[0], _repl_kv(o)))
+    return out
+
+
+def _repl_seq_layout(script):
+    """sequence numbers the primary assigns, from the script: (set of numbers carried by a transaction with >= 2
+    operations, total). put/del/non-empty tx = one number, burst/burstdel/bgburst n = n numbers."""
+    seq, multi = 0, set()
+    for l in script:
+        ws = l.split()
+        if not ws or l.startswith('#'):
+            continue
+        if ws[0] in ('put', 'del'):
+            seq += 1
+        elif ws[0] == 'tx':
+            n = (len(ws) - 2) // 3
+            if n >= 1:
+                seq += 1
+            if n >= 2:
+                multi.add(seq)
+        elif ws[0] in ('burst', 'burstdel', 'bgburst'):
+            seq += int(ws[1])
+    return multi, seq
+
+
+def _repl_diverged_only(component, script, impl, problems):
+    if component != 'repl' or not problems or not all(p.startswith('not-converged:') for p in problems):
+        return None
+    bad = [f for _, _, v, f in _repl_awaits(script, impl) if v == 'diverged']
+    return bad if bad and len(bad) == len(problems) else None
+
+
+def kf_repl_tx_shared_seq(component, script, impl, problems):
+    """D29: the history contains a transaction with >= 2 operations; the replica's cursor is stuck below that
+    transaction's sequence number, the batch the primary sends for that cursor contains it (txat), and the replica reported
+    gaps INSIDE batches; the log object is not stale."""
+    bad = _repl_diverged_only(component, script, impl, problems)
+    if not bad:
+        return False
+    multi, _ = _repl_seq_layout(script)
+    return bool(multi) and all(
+        f.get('finding') == 'D29' and f.get('gapin', 0) > 0 and f.get('txat') in multi and
+        f.get('applied', 0) < f['txat'] <= f.get('applied', 0) + 100 and f.get('stale') == 0 and
+        f.get('missing', 0) + f.get('wrong', 0) + f.get('extra', 0) > 0 for f in bad)
+
+
+def kf_repl_tx_cut_by_limit(component, script, impl, problems):
+    """D29 second clause: the replica joined AFTER the writes; counting log entries from the start, the first entry of a
+    transaction with >= 2 operations is the 100th entry of a message (entry index = 99 mod 100): the replica's applied
+    sequence equals the primary's last sequence (it believes it is caught up), no gap was reported, the log object is not
+    stale, and only keys are missing/wrong (the rest of that transaction), none extra."""
+    bad = _repl_diverged_only(component, script, impl, problems)
+    if not bad:
+        return False
+    entries, cut_seqs, seq, joined = 0, set(), 0, False
+    for l in script:
+        ws = l.split()
+        if not ws or l.startswith('#'):
+            continue
+        if ws[0] in ('join', 'restart'):
+            joined = True
+        n_e = n_s = 0
+        if ws[0] in ('put', 'del'):
+            n_e = n_s = 1
+        elif ws[0] in ('burst', 'burstdel', 'bgburst'):
+            n_e = n_s = int(ws[1])
+        elif ws[0] == 'tx':
+            n_e = (len(ws) - 2) // 3
+            n_s = 1 if n_e else 0
+            if n_e >= 2 and entries % 100 == 99 and not joined:
+                cut_seqs.add(seq + 1)
+        entries += n_e
+        seq += n_s
+    return bool(cut_seqs) and all(
+        f.get('finding') == 'D29b' and f.get('splitat') in cut_seqs and f.get('applied') == f.get('primseq') and
+        f.get('gapin', 0) == 0 and f.get('stale') == 0 and f.get('extra', 0) == 0 and
+        1 <= f.get('missing', 0) + f.get('wrong', 0) <= 8 for f in bad)
+
+
+def kf_repl_log_object_replaced(component, script, impl, problems):
+    """D30: the primary flushed (explicit flush or a small memtable) and the log object the replication primary holds is
+    stale: its sequence (observed) is frozen below the engine's, at least one rotation happened, the replica's cursor is
+    not beyond the frozen sequence + 1, no gap inside a batch."""
+    bad = _repl_diverged_only(component, script, impl, problems)
+    if not bad:
+        return False
+    cfg = _repl_kv(next((l for l in script if l.startswith('cfg ')), ''))
+    can_rotate = any(l.split()[0] == 'flush' for l in script if l.strip()) or 0 < cfg.get('mem', 0) <= 65536
+    return can_rotate and all(
+        f.get('finding') == 'D30' and f.get('stale') == 1 and f.get('rot', 0) >= 1 and f.get('observed', 0) < f.get('primseq', 0) and
+        f.get('applied', 0) <= f.get('observed', 0) and f.get('gapin', 0) == 0 for f in bad)
+
+
+def _repl_episodes(component, script, impl, problems):
+    if component != 'repl' or not problems or not all(p.startswith('error-episode ') for p in problems):
+        return None
+    if not any(l.startswith('cfg ') and 'expect=clean' in l for l in script):
+        return None
+    aw = _repl_awaits(script, impl)
+    if not aw or any(v != 'converged' for _, _, v, _ in aw):
+        return None
+    return set(p.split()[1].rstrip(':') for p in problems)
+
+
+def kf_repl_selfloop_refused(component, script, impl, problems):
+    """D35: a replica catching up from a QUIET primary (no push can occur) converged, but every handled batch ended in the
+    refused transition STREAMING_ENTRIES -> STREAMING_ENTRIES (ERROR, back-off, reconnect); the only other error class allowed
+    is the table's second refusal WAITING_FOR_DATA -> APPLYING_ENTRIES (data arriving while the replica waits)."""
+    kinds = _repl_episodes(component, script, impl, problems)
+    if not kinds or 'selfloop' not in kinds or not kinds <= {'selfloop', 'waitappl'}:
+        return False
+    f = _repl_awaits(script, impl)[-1][3]
+    return f.get('selfloop', 0) >= 1 and f.get('connects', 0) >= f.get('selfloop', 0) + 1 and f.get('acks', 1) == 0
+
+
+def kf_repl_push_flagged_compressed(component, script, impl, problems):
+    """D31: writes pushed to a connected idle replica: the replica failed to decompress pushed batches (and got the data only
+    through the reconnect that followed); the only other error classes allowed next to it are D35's refused transitions."""
+    kinds = _repl_episodes(component, script, impl, problems)
+    if not kinds or 'decomp' not in kinds or not kinds <= {'decomp', 'selfloop', 'waitappl'}:
+        return False
+    idle = next((i for i, l in enumerate(script) if l.startswith('idle ')), None)
+    return idle is not None and any(l.split()[0] in ('put', 'del', 'burst') for l in script[idle + 1:])
+
+
+def kf_replfault_stalled_reader_blocks(component, script, impl, problems):
+    """D32: a client that never reads its stream is attached (fault stall, recvd=0) and client operations of the primary
+    did not return within the watchdog, the first of them a put whose goroutine is inside Stream.Send (cause=send);
+    nothing else is wrong."""
+    if component != 'replfault' or not problems or not all(p.startswith('blocked:') for p in problems):
+        return False
+    stalls = [l.split()[2] for l in script if l.startswith('fault stall ')]
+    if not stalls:
+        return False
+    outs = [(s, o or '') for s, o in zip(script, impl) if (o or '').startswith('blocked ')]
+    verdict = next((o or '' for s, o in zip(script, impl) if s.startswith('verdict')), '')
+    ops = set(_repl_kv(verdict).get('op', '').split(','))
+    return bool(outs) and outs[0][0].startswith('load ') and 'op=put' in outs[0][1] and 'cause=send' in outs[0][1] and \
+        ops <= {'put', 'get', 'commit', 'nodeinfo'} and 'put' in ops and all(('%s:stall:recvd=0' % s) in verdict for s in stalls)
+
+
+def kf_replfault_silent_reader_kept(component, script, impl, problems):
+    """D32 second clause: a client that reads every message and never acknowledges (fault noack) is still listed after
+    several heartbeat timeouts WHILE the primary kept sending to it inside the observation window (during>0: poll re-sends,
+    pushes or keep-alive responses refreshed LastActivity); nothing is blocked, nothing failed."""
+    if component != 'replfault' or not problems or not all(p.startswith('notdropped:') for p in problems):
+        return False
+    noack = set(l.split()[2] for l in script if l.startswith('fault noack '))
+    watch = [(s.split()[1], _repl_kv(o or '')) for s, o in zip(script, impl) if s.startswith('watchdrop ') and (o or '').startswith('notdropped ')]
+    verdict = next((o or '' for s, o in zip(script, impl) if s.startswith('verdict')), '')
+    return bool(watch) and len(watch) == len(problems) and verdict.startswith('notdropped ') and \
+        all(n in noack and f.get('during', 0) > 0 for n, f in watch)
